@@ -50,7 +50,10 @@ func contextWithValidator(ctx context.Context, v Validator) context.Context {
 	if v == nil {
 		return ctx
 	}
-	list := append(Validators(ctx), v)
+	// never append into the list of the parent context: two contexts derived
+	// from the same parent would share the slot
+	prev := Validators(ctx)
+	list := append(prev[:len(prev):len(prev)], v)
 	return context.WithValue(ctx, validtorsKey, list)
 }
 
